@@ -151,6 +151,8 @@ class Engine:
         g.default_emitter = (not g.moving_alloc) and not g.gen_api and rng.random() < 0.15
         # an abandoned build (tables left open with fields added) and flatcc_builder_reset in front of the script: the model starts fresh
         if rng.random() < 0.2: g.abandon = bu.abandon_ops(rng)
+        # flatcc_builder_reserve_table inside open tables started with a too small count (no effect on the layout: the model script is unchanged)
+        if not g.gen_api and rng.random() < 0.3: g.reserve_bias = rng.choice([0.3, 1.0])
         g.corder = self.corder.get(s.name)
         g.thash = self.thash.get(s.name)
         g.embed_min_depth = embed_min_depth
